@@ -327,6 +327,20 @@ def check(chk):
                detail="a game stopped while tilted would leave the flag set: every tilt of the next game is ignored, the rules stay installed on a tilted machine",
                construct=run.ident, text="tilt-ignoring flag %s not reset at game start" % attr)
     chk.ob("DOM-20", "flags that make tilt() return early examined", {"tilted", "ending"} <= early, f.where(), detail=str(sorted(early)), nontrivial=False)
+    # the tilt ends the ball through game.end_ball(), which raises the end-ball flag; a tilt that arrives while the ball is still starting
+    # must not be wiped: the flag is cleared before anything is awaited in _run_ball, and end_ball() raises that very flag
+    rb = repo.func(GMF, "Game._run_ball")
+    chk.analysed(rb)
+    bcfg = rb.cfg()
+    clr = [n for n, c in bcfg.calls_named("clear") if src(c.func.value) == "self._end_ball_event"]
+    aw = [n for n in bcfg.nodes if n.kind in ("stmt", "test") and n.has_await()]
+    ok = len(clr) == 1 and bool(aw) and all(bcfg.dominates(clr[0].id, a.id) for a in aw) and any("_end_ball_event.wait()" in a.text(200) for a in aw)
+    chk.ob("DOM-20", "a tilt during ball start is not lost: the end-ball flag is cleared before anything is awaited and then waited for", ok, rb.where(),
+           detail="cleared after the start sequence, a tilt that arrived meanwhile is wiped: ball_started installs the rules on a tilted machine", construct=rb.ident,
+           text="end flag cleared after an await")
+    eb_ = repo.func(GMF, "Game.end_ball")
+    ok = any(call_attr(c) == "set" and src(c.func.value) == "self._end_ball_event" for c in eb_.calls())
+    chk.ob("DOM-20", "end_ball() raises the flag _run_ball waits for", ok, eb_.where(), construct=eb_.ident, text="end_ball sets flag")
 
 
 def _prio(f):
@@ -369,6 +383,7 @@ def battery():
         M("twin: append via call result", FL, "        rule = self.machine.platform_controller.set_pulse_on_hit_and_release_rule(", "        rule = self.machine.platform_controller.set_pulse_on_hit_and_release_rule(  # main", None),
         M("twin: extra disable event", Y, "    disable_events: event_handler|event_handler:ms|ball_will_end, service_mode_entered", "    disable_events: event_handler|event_handler:ms|ball_will_end, service_mode_entered, tilt", None, nth=0),
         M("tilted flag survives the game", "mpf/modes/game/code/game.py", "        self.tilted = False\n        self.ending = False\n        self.num_players = 0", "        self.ending = False\n        self.num_players = 0", "DOM-20"),
+        M("tilt during ball start is wiped", "mpf/modes/game/code/game.py", "        self._end_ball_event.clear()\n        await self._start_ball(is_extra_ball)", "        await self._start_ball(is_extra_ball)\n        self._end_ball_event.clear()", "DOM-20"),
     ]
 
 
